@@ -25,6 +25,10 @@ type Leaf struct {
 	Val    string   // canonical, type-tagged value
 	GoType string
 	Key    bool          // list key leaf
+	// ZeroUnion: the field is a union (interface) holding the zero value of a scalar member
+	// type (UnionUint32(0), UnionBool(false), UnionString("")), a legal YANG value that
+	// ygot's traversal treats like an unset leaf.
+	ZeroUnion bool
 	Field  reflect.Value // the (addressable) struct field
 	Schema *yang.Entry
 }
@@ -42,6 +46,18 @@ type Model struct {
 
 func newModel() *Model {
 	return &Model{Leaves: map[string]*Leaf{}, Containers: map[string]reflect.Value{}, ListKeys: map[string][]string{}, Ordered: map[string]bool{}, Unkeyed: map[string]int{}}
+}
+
+// FlatNoZeroUnion is Flat without the zero-valued union leaves (ygot's own notion of
+// which leaves are set).
+func (m *Model) FlatNoZeroUnion() map[string]string {
+	out := make(map[string]string, len(m.Leaves))
+	for p, l := range m.Leaves {
+		if !l.ZeroUnion {
+			out[p] = l.Val
+		}
+	}
+	return out
 }
 
 // Flat returns path -> value for every leaf under its primary path.
@@ -243,7 +259,16 @@ func Classify(sf reflect.StructField) FieldKind {
 // IsSet reports whether a leaf / leaf-list field holds a value.
 func IsSet(v reflect.Value) bool {
 	switch v.Kind() {
-	case reflect.Ptr, reflect.Interface, reflect.Map:
+	case reflect.Interface:
+		if v.IsNil() {
+			return false
+		}
+		// an enumeration member of a union holding 0 is the generated UNSET constant
+		if e := v.Elem(); isEnum(e.Type()) && e.Int() == 0 {
+			return false
+		}
+		return true
+	case reflect.Ptr, reflect.Map:
 		return !v.IsNil()
 	case reflect.Slice:
 		return !v.IsNil() && v.Len() > 0
@@ -660,6 +685,12 @@ func (w *walker) structNode(s reflect.Value, sch *yang.Entry, base string) {
 				continue
 			}
 			l := &Leaf{Path: p, Val: Render(f), GoType: dynType(f), Field: f, Schema: csch}
+			if f.Kind() == reflect.Interface {
+				switch e := f.Elem(); e.Kind() {
+				case reflect.Bool, reflect.String, reflect.Int8, reflect.Int16, reflect.Int32, reflect.Int64, reflect.Uint8, reflect.Uint16, reflect.Uint32, reflect.Uint64, reflect.Float64:
+					l.ZeroUnion = e.IsZero()
+				}
+			}
 			for _, a := range alts[1:] {
 				l.Alt = append(l.Alt, joinPath(base, a))
 			}
